@@ -148,6 +148,23 @@ def epochs_family(ld, r, count):
                         fails.append(dict(kind='history', summary=f'{shape} over {n} examples ({"dict" if keyed else "list"} source), examples {sorted(badset)} raise {exc.__name__}, caught {sel}: '
                                           f'epoch {epoch + 1} of the same catching object delivers {got}; exactly {want} (in some order) must survive'[:600], config=dict(n=n, bad=sorted(badset), shape=shape, seed=seed)))
                         break
+                else:
+                    # two iterators over the same catching object in flight, advanced alternately (the second one starts while the first
+                    # is in the middle of its epoch): each delivers exactly the survivors
+                    if shape != 'reshuffle_map_prefetch1' and want:
+                        i1 = iter(d)
+                        o1, o2 = [next(i1)], []
+                        i2 = iter(d)
+                        live = [(i1, o1), (i2, o2)]
+                        while live:
+                            for itx, ox in list(live):
+                                try:
+                                    ox.append(next(itx))
+                                except StopIteration:
+                                    live.remove((itx, ox))
+                        if sorted(o1) != want or sorted(o2) != want:
+                            fails.append(dict(kind='history', summary=f'{shape} over {n} examples, examples {sorted(badset)} raise {exc.__name__}, caught {sel}: two iterators over the same catching object '
+                                              f'advanced alternately deliver {o1} and {o2}; each must deliver exactly {want} (in some order)'[:600], config=dict(n=n, bad=sorted(badset), shape=shape, seed=seed)))
             except Exception as e:
                 fails.append(dict(kind='history', summary=f'{shape} (n={n}, failing {sorted(badset)}, {exc.__name__} caught by {sel}) raised {type(e).__name__}: {e}'[:400], config=dict(n=n, shape=shape, seed=seed)))
     return fails
